@@ -53,12 +53,12 @@ class BaseSimulationAlgorithm(IterativeAlgorithm[ModelType, ReturnType]):
             - `noise_std`: Noise standard deviation used in the simulation.
         """
 
+        self._get_leaspy_model(model)
+
         # Simulate Individual Parameters Repeated Measures
         individual_parameters_from_model_parameters = (
             self._sample_individual_parameters_from_model_parameters(model)
         )
-
-        self._get_leaspy_model(model)
 
         dict_timepoints = self._generate_visit_ages(
             individual_parameters_from_model_parameters
